@@ -710,7 +710,7 @@ pub fn run(cx: &mut Ctx) {
     cx.check(
         "walk-vs-model",
         RULE,
-        Budget { quick: 150_000, thorough: 3_000_000, max_len: if thorough { 40_000 } else { 14_000 } },
+        Budget { quick: 150_000, thorough: 1_000_000, max_len: if thorough { 40_000 } else { 14_000 } },
         |u, st| {
             let d = gen_doc(u, deep_list, max_nodes);
             run_case(d, u, st)
@@ -742,7 +742,7 @@ pub fn run(cx: &mut Ctx) {
         cx.check(
             "walk-vs-model-large",
             RULE,
-            Budget { quick: 0, thorough: 240, max_len: 16_000 },
+            Budget { quick: 0, thorough: 120, max_len: 16_000 },
             |u, st| {
                 let o = GenOpts {
                     max_depth: u.range(1, 6),
